@@ -351,6 +351,12 @@ def _decide(pid: str, tier: str, seed: int, reg: Any, own: list, results: dict, 
                     v["replay_report"] = rep
                     if not rep.get("applicable", True):
                         confirmed = None
+                    elif rep["violations"] and all(("noraise:AttributeError" in x or "noraise:TypeError" in x) for x in rep["violations"]) \
+                            and "noraise:" not in o["name"]:
+                        # the rebuilt objects are shapes (object.__new__ + the contract's fields): an AttributeError/TypeError of the native run is
+                        # an artefact of the reconstruction, not a replay of this obligation
+                        confirmed = None
+                        v["replay_note"] = "native run raised AttributeError/TypeError on the reconstructed objects: not a replay"
                     elif rep["violations"]:
                         confirmed = True
                     elif not rep["spec_errors"]:
